@@ -8,7 +8,7 @@ import (
 )
 
 // letters of the single-dash alphabet: a, b flags; n increment; s string; i int; é string (multibyte, valued); ß flag (multibyte); z undeclared
-var c07Letters = []string{"a", "b", "n", "s", "i", "é", "ß", "z"}
+var c07Letters = []string{"a", "b", "n", "s", "i", "é", "ß", "z", "1"}
 
 func defC07(mode int, late bool) *ph.Def {
 	return &ph.Def{Mode: mode, LateMode: late, Unknown: 2, Root: ph.CmdDef{Name: "prog",
@@ -22,13 +22,16 @@ func defC07(mode int, late bool) *ph.Def {
 			{Name: "ß", Kind: ph.Bool},
 			{Name: "an", Kind: ph.Bool},
 			{Name: "long", Kind: ph.Str, DefS: "L"},
+			{Name: "1", Kind: ph.Bool},                  // a digit as option name: `-1` is an option, not a number
+			{Name: "io", Kind: ph.IntOpt, DefI: 4},      // optional numeric value
+			{Name: "fl", Kind: ph.FltS, Min: 1, Max: 2}, // numeric slice with room for a second value
 		},
 		Cmds: []*ph.CmdDef{{Name: "c", Opts: []ph.OptDef{{Name: "d", Kind: ph.Bool}}}},
 	}}
 }
 
-var c07Flag = map[string]bool{"a": true, "b": true, "n": true, "ß": true}
-var c07Declared = map[string]bool{"a": true, "b": true, "n": true, "s": true, "i": true, "é": true, "ß": true}
+var c07Flag = map[string]bool{"a": true, "b": true, "n": true, "ß": true, "1": true}
+var c07Declared = map[string]bool{"a": true, "b": true, "n": true, "s": true, "i": true, "é": true, "ß": true, "1": true}
 
 // c07Rewrite returns the documented rewriting of the single-dash token -LETTERS[=v] and whether the
 // statement's preconditions hold in this mode.
@@ -77,10 +80,16 @@ func c07Context(ctx int, toks []string) []string {
 		return append([]string{"pos"}, toks...)
 	case 4:
 		return append([]string{"c"}, toks...)
-	default:
+	case 5:
 		return append(append([]string{"c"}, toks...), "7")
+	case 6: // right behind an optional numeric option given without a value
+		return append([]string{"--io"}, toks...)
+	default: // right behind a numeric slice that could take one more value
+		return append([]string{"--fl", "2.5"}, toks...)
 	}
 }
+
+const c07Contexts = 8
 
 // c07Equiv compares the two outcomes; tokens of the original that were passed through are mapped through the rewriting.
 func c07Equiv(o1, o2 *ph.Outcome, tok string, rew []string) []string {
@@ -221,9 +230,9 @@ func init() {
 	register(&Check{
 		ID:        "C07",
 		QuickSecs: 120, ThoroSecs: 900,
-		Rule: "input-space exploration, metamorphic: every single-dash token -LETTERS[=v] with LETTERS a string of length 1..Ll over 8 letters (two flags, increment, string, int, a multibyte valued option, a multibyte flag, an undeclared letter) and v in {none, x, 5, =y, `a b`, empty} " +
-			"in 6 contexts (alone, followed by a value, followed by an option, after a positional, after a command, after a command and followed by a value) x 3 modes x SetMode before/after the commands are declared; the complete outcome of Parse on the token is compared with Parse on its documented rewriting " +
-			"(restricted to the statement's preconditions in Bundling mode); plus every long-only argv of length <= 3 over 10 tokens compared across the three modes; distinct_nontrivial = distinct (definition, argv) pairs compared",
+		Rule: "input-space exploration, metamorphic: every single-dash token -LETTERS[=v] with LETTERS a string of length 1..Ll over 9 letters (two flags, increment, string, int, a multibyte valued option, a multibyte flag, an undeclared letter, a digit that is a declared flag) and v in {none, x, 5, =y, `a b`, empty} " +
+			"in 8 contexts (alone, followed by a value, followed by an option, after a positional, after a command, after a command and followed by a value, right behind an optional numeric option, right behind a numeric slice with room) x 3 modes x SetMode before/after the commands are declared; the complete outcome of Parse on the token is compared with Parse on its documented rewriting " +
+			"(restricted to the statement's preconditions in Bundling mode); plus every long-only argv of length <= 3 over 14 tokens (one-letter abbreviations of long names included) compared across the three modes; distinct_nontrivial = distinct (definition, argv) pairs compared",
 		Assume: []string{"letters outside the alphabet and tokens longer than Ll are not covered"},
 		Run: func(c *RunCtx) {
 			ll := 4
@@ -232,8 +241,8 @@ func init() {
 			}
 			res := c.Res
 			attaches := []*string{nil, sp("x"), sp("5"), sp("=y"), sp("a b"), sp("")}
-			res.Bounds = map[string]any{"Ll": ll, "letters": c07Letters, "contexts": 6}
-			longAlpha := []string{"--a", "--s=v", "--s", "v", "--long=x", "--lo=x", "--an", "--i=3", "--zz", "c", "--é=w"}
+			res.Bounds = map[string]any{"Ll": ll, "letters": c07Letters, "contexts": c07Contexts}
+			longAlpha := []string{"--a", "--s=v", "--s", "v", "--long=x", "--lo=x", "--an", "--i=3", "--zz", "c", "--é=w", "--l=y", "--f", "--1"}
 			units := len(c07Letters) + len(longAlpha)
 			for {
 				u := c.claim()
@@ -286,7 +295,7 @@ func init() {
 							}
 							for _, late := range []bool{false, true} {
 								def := defC07(mode, late)
-								for ctx := 0; ctx < 6; ctx++ {
+								for ctx := 0; ctx < c07Contexts; ctx++ {
 									argv := c07Context(ctx, []string{tok})
 									argv2 := c07Context(ctx, rew)
 									p1 := ph.Build(def, nil)
